@@ -544,6 +544,47 @@ def run_shard(shard):
                             record("bytes%r" % (jk[:6],), data.decode("latin1"), 2048, "2048", [("late-or-lost-around-junk", "transport=%s,bytes" % side, "delivered %r" % (kinds,))], [p.decode("latin1") for p in pieces][:6], {"mode": "transport"})
                     finally:
                         loop.teardown()
+        # segments WITHOUT any '>' after a truncated element and a valid message: the receive loops must keep processing
+        # (junk recovery needs the later, '>'-free data to push the truncated element over the threshold)
+        for side in ("client", "server"):
+            for filler in (b"x" * 2200, b"abc def 123 " * 190, bytes(range(48, 58)) * 230, b"\x00\xff" * 1100):
+                for trunc in (b'<setTextVector device="d" name="n" state="Ok"', b'<getProperties version="1.7" device="tr', b"<newNumberVector"):
+                    data_parts = [trunc, V1.encode(), filler[:700], filler[700:1500], filler[1500:]]
+                    loop = VL.VLoop().install()
+                    try:
+                        got = []
+                        ep = VL.Endpoint(loop, "g")
+                        if side == "client":
+                            h = ClientH(ep.reader, ep.writer, got.append)
+                        else:
+                            router = Router()
+
+                            class RecF(Device):
+                                def accepts(self, device):
+                                    return True
+
+                                def message_from_client(self, message):
+                                    got.append(message)
+
+                            router.register_device(RecF())
+                            h = ServerH(ep.reader, ep.writer, router)
+                        task = loop.create_task(h.wait_for_messages())
+                        loop.quiesce()
+                        for pz in data_parts:
+                            ep.feed(pz)
+                            loop.quiesce()
+                        res["transitions"] += len(data_parts)
+                        res["streams"] += 1
+                        kinds = [type(m).__name__ for m in got]
+                        S_ = b"".join(data_parts).decode("latin1")
+                        if task.done():
+                            record("gtfree", S_, 2048, "2048", [("raises", "transport=%s,segments-without-gt" % side, "receive loop ended")], [p.decode("latin1") for p in data_parts][:3], {"mode": "transport"})
+                        elif kinds != ["GetProperties"]:
+                            record("gtfree", S_, 2048, "2048", [("late-or-lost-after-corruption", "transport=%s,segments-without-gt" % side, "truncated element, valid message, then %d characters without '>': delivered %r" % (len(filler), kinds))], [p.decode("latin1") for p in data_parts][:3], {"mode": "transport"})
+                        elif h.buffer.data_len > 2048:
+                            record("gtfree", S_, 2048, "2048", [("retention", "transport=%s,segments-without-gt" % side, "%d characters retained" % h.buffer.data_len)], [p.decode("latin1") for p in data_parts][:3], {"mode": "transport"})
+                    finally:
+                        loop.teardown()
         # the TTY transport reads LINES: junk lines of every shape (empty, CR LF only, blanks, a lone '<', binary junk,
         # half a tag) before / between / after valid one-line messages, every ordering of <= 2 junk lines per gap
         import io as _io
